@@ -128,8 +128,9 @@ func (i Int) term() string {
 	}
 	return i.t
 }
+// signed: the numeric value of a concrete integer as int64 (sign-extended for signed types, zero-extended otherwise)
 func (i Int) signed() int64 {
-	if i.w >= 64 {
+	if i.w >= 64 || !i.sgn {
 		return int64(i.v)
 	}
 	sh := uint(64 - i.w)
